@@ -89,11 +89,11 @@ func (r *Run) Undecided(construct, pos, detail string) {
 }
 
 // Check is OK/Bad by a boolean.
-func (r *Run) Check(ok bool, construct, pos, okDetail, badDetail string) bool {
+func (r *Run) Check(ok bool, construct, pos, okDetail, badDetail string, path ...string) bool {
 	if ok {
 		r.OK(construct, pos, okDetail)
 	} else {
-		r.Bad(construct, pos, badDetail)
+		r.Bad(construct, pos, badDetail, path...)
 	}
 	return ok
 }
